@@ -1085,7 +1085,9 @@ def _selfcheck_readers():
 CORPUS_INIT = "corpus:features/steps/test_files/shp-picture.pptx"
 INITS = ["two_blank", "has_A", CORPUS_INIT]
 MANY_INIT = "ten_images"   # already holds image1..image10: the next new image needs a two-digit-aware free index
-ALL_INITS = INITS + [MANY_INIT]
+HOLED_INIT = "holed_images"   # holds image1, image3 and image7 (a deck from which pictures were deleted): the free
+                              # indices are 2, 4, 5, 6, 8...; a new image must never take a name in use
+ALL_INITS = INITS + [MANY_INIT, HOLED_INIT]
 
 _IMG = {}
 
@@ -1149,6 +1151,20 @@ def initial_blob(name):
         b = F.save_bytes(prs)
     elif name == "ten_images":
         b = F.save_bytes(_deck_with_images(10))
+    elif name == "holed_images":
+        mem = F.zip_members(F.save_bytes(_deck_with_images(3)))
+        if "ppt/media/image2.png" not in mem or "ppt/media/image3.png" not in mem:
+            raise HarnessError("three-image deck has unexpected media names: %s" % sorted(m for m in mem if "media" in m))
+        order = [("ppt/media/image7.png" if n == "ppt/media/image2.png" else n) for n in mem]
+        mem["ppt/media/image7.png"] = mem.pop("ppt/media/image2.png")
+        n_ref = 0
+        for n in list(mem):
+            if n.endswith(".rels") and b"media/image2.png" in mem[n]:
+                mem[n] = mem[n].replace(b"media/image2.png", b"media/image7.png")
+                n_ref += 1
+        if n_ref != 1:
+            raise HarnessError("expected one relationship to image2.png, found %d" % n_ref)
+        b = F.write_zip(mem, order)
     elif name.startswith("corpus:"):
         b = F.read_bytes(os.path.join(F.REPO, name[len("corpus:"):]))
     else:
@@ -1564,6 +1580,7 @@ def run(ctx):
     ctx.extra["initial_decks"] = {i: [m for m, _ in init_images(i)] for i in ALL_INITS}
     explorer.explore(ctx, System(INITS), 3, name="full-alphabet-depth3")
     explorer.explore(ctx, System([MANY_INIT]), 3 if thorough else 2, name="ten-image-deck")
+    explorer.explore(ctx, System([HOLED_INIT]), 3 if thorough else 2, name="holed-image-deck")
     if thorough:
         explorer.explore(ctx, System(INITS, SUB), 4, name="sub-alphabet-depth4")
     never = [k for k in OPS if k not in ctx.outcomes]
